@@ -258,6 +258,18 @@ fn eval_pipe(p: &Pipe, scratch: &Scratch) -> Option<Viol> {
                 args.extend(["--precision".to_string(), "6".to_string()]);
             }
             let mut out_path = None;
+            if p.sink == "file-inplace" {
+                // the output path is the input file itself: the input must be read before it is replaced
+                let path = scratch.file(if p.format == "npy" { ".inplace.npy" } else { ".inplace.sfs" }, input.as_bytes());
+                args.extend(["-o".to_string(), path.to_str().unwrap().to_string(), path.to_str().unwrap().to_string()]);
+                let a: Vec<&str> = args.iter().map(|s| s.as_str()).collect();
+                let mut o = run_sfs(&a, Stdin::Null, scratch);
+                if o.ok() {
+                    o.stdout = fs::read(&path).unwrap_or_default();
+                }
+                let _ = fs::remove_file(path);
+                return finish_pipe(p, o, produced, scratch);
+            }
             if p.sink != "stdout" {
                 let path = scratch.path(if p.format == "npy" { ".out.npy" } else { ".out.sfs" });
                 if p.sink == "file-reused" {
@@ -279,6 +291,10 @@ fn eval_pipe(p: &Pipe, scratch: &Scratch) -> Option<Viol> {
             (o, produced)
         }
     };
+    finish_pipe(p, prod_out, produced, scratch)
+}
+
+fn finish_pipe(p: &Pipe, prod_out: Out, produced: RefArray, scratch: &Scratch) -> Option<Viol> {
     let case = || {
         J::obj([
             ("kind", J::s("c07-pipe")),
@@ -460,7 +476,7 @@ fn eval_text_npy_text(exp: i32, p: usize, scratch: &Scratch) -> (u64, Option<Vio
 
 pub fn run(tier: Tier) -> i32 {
     let mut rep = Report::new("C07", tier, "exploration");
-    rep.rule = "L1: every shape with 1..6 axes, lengths 1..4 and <=24 cells, filled cyclically from a 16-value special alphabet (+-0, subnormal, huge, NaN incl. a signalling payload, +-inf, 1/3, ...) x precision 0..17 x {text, npy}: write with io::write::Builder, read back with Array::read_npy and the auto-detecting io::read::Builder; npy bit-identical, text within half a unit of the p-th decimal (+ half an ulp for the decimal->binary step). L2: full matrix producer{create,view,fold} x format x sink{stdout, -o fresh file, -o over a longer existing file} x consumer{view,fold,stat} x consumer transport{stdin file, stdin pipe, path, FIFO path, /dev/stdin} x 6 spectra; a size ladder of spectra whose text form crosses 4 KiB .. 16 MiB through both formats and both layers; text->npy->text token identity for all 3-digit mantissas x exponents -6..6 x precisions {0,3,6,9} on tokens with <=15 significant digits. Non-trivial = non-finite or subnormal values, >=3 axes, npy, or a reused output file.".into();
+    rep.rule = "L1: every shape with 1..6 axes, lengths 1..4 and <=24 cells, filled cyclically from a 16-value special alphabet (+-0, subnormal, huge, NaN incl. a signalling payload, +-inf, 1/3, ...) x precision 0..17 x {text, npy}: write with io::write::Builder, read back with Array::read_npy and the auto-detecting io::read::Builder; npy bit-identical, text within half a unit of the p-th decimal (+ half an ulp for the decimal->binary step). L2: full matrix producer{create,view,fold} x format x sink{stdout, -o fresh file, -o over a longer existing file, -o onto the input file itself} x consumer{view,fold,stat} x consumer transport{stdin file, stdin pipe, path, FIFO path, /dev/stdin} x 6 spectra; a size ladder of spectra whose text form crosses 4 KiB .. 16 MiB through both formats and both layers; text->npy->text token identity for all 3-digit mantissas x exponents -6..6 x precisions {0,3,6,9} on tokens with <=15 significant digits. Non-trivial = non-finite or subnormal values, >=3 axes, npy, or a reused output file.".into();
 
     let scratch = Scratch::new("c07");
     let shp = shapes(6, 1, 4, 24);
@@ -523,7 +539,7 @@ pub fn run(tier: Tier) -> i32 {
         for transport in Transport::ALL {
             pipes.push(Pipe { producer: "create", format: "text", sink: "stdout", consumer, spectrum: 0, transport });
             for spectrum in 0..l2_spectra().len() {
-                for sink in ["stdout", "file", "file-reused"] {
+                for sink in ["stdout", "file", "file-reused", "file-inplace"] {
                     pipes.push(Pipe { producer: "fold", format: "text", sink, consumer, spectrum, transport });
                     for format in ["text", "npy"] {
                         pipes.push(Pipe { producer: "view", format, sink, consumer, spectrum, transport });
@@ -540,7 +556,7 @@ pub fn run(tier: Tier) -> i32 {
         name: "cli: producer x format x sink x consumer".into(),
         evaluations: pipes.len() as u64,
         nontrivial: pipes.iter().filter(|p| p.format == "npy" || p.sink == "file-reused" || p.producer == "fold" || p.spectrum >= 2).count() as u64,
-        note: "every combination; fold produces NaN cells; `-o` onto a fresh path and onto a longer pre-existing file; the consumer reads from stdin (regular file / real pipe) or from a path (regular file / FIFO / /dev/stdin over a pipe)".into(),
+        note: "every combination; fold produces NaN cells; `-o` onto a fresh path, onto a longer pre-existing file and onto the input file itself; the consumer reads from stdin (regular file / real pipe) or from a path (regular file / FIFO / /dev/stdin over a pipe)".into(),
         exhaustive: true,
         extra: vec![],
     });
